@@ -78,7 +78,7 @@ UNPROVED = (
     "(that normalize_url's steps other than the index test commute with lower-casing), "
     "platform_aware=True (D53: KF-C03-2), URLs with a redirect hint (D29: KF-C03-1), the "
     "string-level bridging (cleaning + CPython parse/print: evaluated per case by c03_bridge / c03_lower; an "
-    "unknown scheme with an empty authority, where it used to fail - KF-C03-5 - is fixed: FX-C02-EMPTYAUTH), equality of "
+    "unknown scheme with an empty authority, where it used to fail - KF-C03-5 - is fixed: FX-C02-f918741), equality of "
     "the printed strings vs equality of the components."
 )
 
@@ -231,7 +231,7 @@ CORPUS = [
     ["a.com/Index.html", "a.com/Index.html/index.html"],
     ["http://a.com/x%E3%80%80"],
     ["a.com?k=a=b&k=a5"],
-    # FX-C02-EMPTYAUTH (formerly KF-C03-5): unknown scheme + empty authority
+    # FX-C02-f918741 (formerly KF-C03-5): unknown scheme + empty authority
     ["localhost://?a", "custom:///p"],
     # cleaning order: control characters go first, then the surrounding whitespace
     ["\x00 a.com/x", "a.com/x \x00", " \x00 http://a.com/x", "a.com/x"],
